@@ -190,6 +190,18 @@ def planted(kind, a, b, c):
         hp = add("hp", hb, params=[["x", M.NO]])
         body.append(["call", hp, "bare", [["loc", n if back == 0 else back - 1, "pos"]]])
         root = add("root", body)
+    elif kind == "loadsibling":
+        # a keep with a run-time argument whose function also LOADS the path kept by an earlier sibling (dashed edge, not a call-order one)
+        first_keep, wrap = bool(a), bool(c)
+        if first_keep:
+            d0 = add("d0", [["ext", 0]])
+            first = ["keep", "/n0", d0, "bare", []]
+        else:
+            d0 = add("d0", [["ext", 0]], data="/n0")
+            first = ["call", d0, "bare", []]
+        g = add("g", [["load", "/n0"], ["ext", 1]], params=[["x", M.NO]])
+        body = [first, ["keep", "/n1", g, "bare", [["loc", 0, "pos"]]]]
+        root = add("root", body, data="/top" if wrap else None)
     elif kind == "helperchain":
         # a kept function reaches its keeps through `b` plain helpers; in the innermost one a keep without arguments is followed by
         # `a` keeps with run-time arguments
@@ -226,6 +238,8 @@ def case_strategy(opts):
         if sel == 9:
             return {"planted": ["chain", draw(st.integers(1, 4)), draw(st.integers(0, 4)), draw(st.booleans())]}
         if sel == 8:
+            if draw(st.integers(0, 2)) == 0:
+                return {"planted": ["loadsibling", draw(st.integers(0, 1)), 0, draw(st.booleans())]}
             if draw(st.booleans()):
                 return {"planted": ["helperchain", draw(st.integers(1, 3)), draw(st.integers(0, 1)), draw(st.booleans())]}
             return {"planted": ["loadchain", draw(st.integers(0, 3)), draw(st.booleans()), draw(st.booleans())]}
@@ -325,12 +339,85 @@ def check_case(case, ev=None, scratch=None):
             scratch.clean()
 
 
+ARGORDER_SRC = """import dds
+import vlog
+from xt import util as xu
+
+
+def scaled(v):
+    vlog.rec('scaled')
+    return ('scaled', v)
+
+
+def offset():
+    vlog.rec('offset')
+    return ('offset',)
+
+
+def combine(x, y=None, z=None):
+    vlog.rec('combine')
+    return ('combine', x, y, z)
+
+
+def root():
+    vlog.rec('root')
+    v = xu.e0()
+    return combine({args})
+"""
+
+ARGORDER_VARIANTS = {
+    # the keep with the run-time argument is evaluated FIRST: it has no earlier sibling, so no call-order edge may point to it
+    "pos_rt_then_kw": "dds.keep('/scaled', scaled, v), y=dds.keep('/offset', offset)",
+    "pos_rt_then_kw2": "dds.keep('/scaled', scaled, v), z=dds.keep('/offset', offset)",
+    # ... and here it comes second: the edge /offset -> /scaled is allowed (not required)
+    "pos_static_then_kw_rt": "dds.keep('/offset', offset), y=dds.keep('/scaled', scaled, v)",
+    "two_pos": "dds.keep('/offset', offset), dds.keep('/scaled', scaled, v)",
+}
+
+
+def check_argorder(case, ev=None, scratch=None):
+    from ..harness import proc
+
+    own = scratch is None
+    scratch = scratch or common.Scratch("vf-c18")
+    root_dir, gdir = scratch.sub(), scratch.sub()
+    variant = case["argorder"]
+    files = {"pk/__init__.py": "", "pk/m0.py": ARGORDER_SRC.format(args=ARGORDER_VARIANTS[variant]), "xt/__init__.py": "", "xt/util.py": "def e0():\n    return ('e0',)\n"}
+    for rel, content in files.items():
+        p = os.path.join(root_dir, rel)
+        os.makedirs(os.path.dirname(p), exist_ok=True)
+        open(p, "w").write(content)
+    w = proc.Worker()
+    try:
+        w.call("init", root=root_dir, accepted=["pk"], store={"kind": "memory"})
+        gp = os.path.join(gdir, "g.plain")
+        r = w.call("eval", module="pk.m0", func="root", style="eval", opts={"dds_export_graph": gp})
+        if r["exc"] is not None:
+            raise Violation(f"[kept results as arguments of one call: {variant}] evaluation with graph export raised {r['exc']['type']}: {r['exc']['msg'][:300]}", case)
+        nodes, edges = parse_plain(open(gp).read())
+        if nodes != {"/scaled", "/offset"}:
+            raise Violation(f"[kept results as arguments of one call: {variant}] nodes {sorted(nodes)}", case)
+        allowed = set() if variant.startswith("pos_rt") else {("/offset", "/scaled", "dotted")}
+        bad = [e for e in edges if tuple(e) not in allowed]
+        if bad:
+            raise Violation(f"[kept results as arguments of one call: {variant}] unexpected edges {bad}: the arguments are evaluated left to right "
+                            f"(positional, then keywords); a call-order edge may only go from an earlier keep to a later one with run-time arguments", case)
+        if ev is not None:
+            ev.case(case, True, features=["kept-results-as-arguments", "argorder:" + variant])
+    finally:
+        w.close()
+        if own:
+            scratch.clean()
+
+
 def shard(idx, n, tier, seed, count):
     ev = Ev()
     scratch = common.Scratch("vf-c18")
     opts = {"exclude": common.open_features(ID), "max_funcs": 8, "data_den": 2}
     try:
         v = common.hyp_drive(case_strategy(opts), lambda c: check_case(c, ev, scratch), seed * 1000 + 1800 + idx, count, ev)
+        if v is None and idx < len(ARGORDER_VARIANTS):
+            check_argorder({"argorder": sorted(ARGORDER_VARIANTS)[idx]}, ev, scratch)
     finally:
         scratch.clean()
     return ev, v
@@ -342,4 +429,6 @@ def run(tier, seed, scale=1.0):
 
 
 def replay(case):
+    if "argorder" in case:
+        return check_argorder(case)
     check_case(case)
